@@ -132,6 +132,12 @@ struct Writer {
 
     /// The number of bytes that have been written to the currently active file.
     written_bytes: u64,
+
+    /// The highest file ID that has been handed out, IDs are never used twice.
+    last_fileid: u64,
+
+    /// Set when an operation failed halfway and the active file must not be appended to anymore.
+    stale: bool,
 }
 
 /// The reader reads log entries from data files given the locations found in KeyDir. Since data files
@@ -186,6 +192,8 @@ impl Bitcask {
             ))?)?,
             active_fileid,
             written_bytes: 0,
+            last_fileid: active_fileid,
+            stale: false,
         }));
 
         let handle = Handle {
@@ -406,7 +414,17 @@ impl Writer {
     ) -> Result<KeyDirEntry, Error> {
         // Append log entry
         let datafile_entry = DataFileEntry { tstamp, key, value };
-        let index = self.writer.append(&datafile_entry)?;
+        if self.stale {
+            self.new_active_datafile()?;
+        }
+        let index = match self.writer.append(&datafile_entry) {
+            Ok(index) => index,
+            Err(e) => {
+                // Part of the entry can be left behind, nothing must be appended after it
+                self.stale = true;
+                return Err(e.into());
+            }
+        };
         // Sync immediately if the strategy is "always"
         if let SyncStrategy::Always = self.ctx.conf.sync {
             self.writer.sync()?;
@@ -448,7 +466,7 @@ impl Writer {
         // Check if active file size exceeds the max limit. This must be done as the last step of
         // the writing process, otherwise we risk corrupting the storage states.
         if self.written_bytes > self.ctx.conf.max_file_size {
-            self.new_active_datafile(self.active_fileid + 1)?;
+            self.new_active_datafile()?;
         }
         Ok(keydir_entry)
     }
@@ -457,8 +475,10 @@ impl Writer {
     #[tracing::instrument(level = "debug", skip(self))]
     fn merge(&mut self) -> Result<(), Error> {
         let path = self.ctx.conf.path.as_path();
-        let min_merge_fileid = self.active_fileid + 1;
-        let mut merge_fileid = min_merge_fileid;
+        // The active file can get merged, it is replaced before anything else is written
+        self.stale = true;
+        self.last_fileid += 1;
+        let mut merge_fileid = self.last_fileid;
         debug!(merge_fileid, "new merge file");
 
         // Get the set of file ids to be merged
@@ -521,7 +541,8 @@ impl Writer {
                     merge_datafile_writer.flush()?;
                     merge_datafile_writer.get_ref().sync_all()?;
                     merge_hintfile_writer.sync()?;
-                    merge_fileid += 1;
+                    self.last_fileid += 1;
+                    merge_fileid = self.last_fileid;
                     merge_pos = 0;
                     merge_datafile_writer =
                         BufWriter::new(log::create(utils::datafile_name(path, merge_fileid))?);
@@ -553,19 +574,23 @@ impl Writer {
             }
         }
 
-        self.new_active_datafile(merge_fileid + 1)?;
+        self.new_active_datafile()?;
         Ok(())
     }
 
     /// Updates the active file ID and open a new data file with the new active ID.
     #[tracing::instrument(level = "debug", skip(self))]
-    fn new_active_datafile(&mut self, fileid: u64) -> Result<(), Error> {
-        self.active_fileid = fileid;
-        self.writer = LogWriter::new(log::create(utils::datafile_name(
+    fn new_active_datafile(&mut self) -> Result<(), Error> {
+        self.stale = true;
+        self.last_fileid += 1;
+        let writer = LogWriter::new(log::create(utils::datafile_name(
             self.ctx.conf.path.as_path(),
-            self.active_fileid,
+            self.last_fileid,
         ))?)?;
+        self.active_fileid = self.last_fileid;
+        self.writer = writer;
         self.written_bytes = 0;
+        self.stale = false;
         Ok(())
     }
 
